@@ -70,6 +70,14 @@ CLAIMED = {
         "Trusted: Lean kernel + standard axioms, Mathlib; T-arith translator (validated per run); which rows a partial random sample draws is the engine's business.",
         "DESIGN.md §6 C04",
     ),
+    "C19": (
+        "Lean 4 theorems about a model of graph_metrics.py / edge_metrics.py (one def per SQL statement; igraph's bridge finder a parameter): degree = incident edges, handshake (sum of degrees = 2 x edges "
+        "of the cluster), size / edge count / density / centralisation formulas with their NULL cases and ranges, node centrality, the integer id mapping is a bijection so bridge flags land on the right edges, "
+        "a flagged edge is one whose removal disconnects its endpoints (given the bridge finder's spec), one row per record / edge / cluster. Tie: every column of nodes/edges/clusters outputs vs the compiled "
+        "model on all graphs <=5 nodes and structured families (composite ids, 1-3 tables, duckdb+sqlite); naive oracle (BFS bridges) cross-checked with networkx.",
+        "Trusted: Lean kernel + standard axioms; igraph's bridges (specified, checked against a naive oracle and networkx); float evaluation of the quotients.",
+        "DESIGN.md §6 C19",
+    ),
 }
 PENDING_REASON = "check not built yet (model/theorems/correspondence under construction per DESIGN.md §10b); not claimed until all three exist"
 
